@@ -116,7 +116,7 @@ Proof.
   cbn [wf] in Wv, Ww.
   destruct (list_eqb a b) eqn:EL.
   - apply list_eqb_eq in EL. subst b. rewrite N.eqb_refl. cbn [negb].
-    destruct (negb _); [reflexivity|]. cbn [iface_eq]. apply list_eqb_eq. reflexivity.
+    destruct (negb _); first [reflexivity | cbn [iface_eq]; first [reflexivity | apply list_eqb_eq; reflexivity]].
   - destruct (N.eqb_spec (if Nat.leb (length a) 7 then (pack_bytes a + two56 * N.of_nat (length a))%N else 0%N)
                          (if Nat.leb (length b) 7 then (pack_bytes b + two56 * N.of_nat (length b))%N else 0%N)) as [E|_];
       [|reflexivity].
@@ -124,10 +124,9 @@ Proof.
     destruct (Nat.leb (length a) 7) eqn:La, (Nat.leb (length b) 7) eqn:Lb.
     + apply Nat.leb_le in La, Lb. apply str_scalar_inj in E; auto. subst b.
       assert (list_eqb a a = true) by (apply list_eqb_eq; reflexivity). congruence.
-    + rewrite E. cbn. exact EL.
-    + rewrite <- E. destruct (N.eqb_spec (pack_bytes a + two56 * N.of_nat (length a)) 0); cbn; [exact EL|].
-      exfalso. apply n. exact E.
-    + cbn. exact EL.
+    + rewrite E. cbn. first [exact EL | reflexivity].
+    + cbn. first [exact EL | reflexivity].
+    + cbn. first [exact EL | reflexivity].
 Qed.
 
 Lemma equals_ref : forall k p k' p', equals (VRef k p) (VRef k' p') = N.eqb k k' && N.eqb p p'.
@@ -179,20 +178,20 @@ Qed.
 
 Lemma raw_eq_sym : forall v w, raw_eq v w = raw_eq w v.
 Proof.
-  destruct v, w; cbn; auto using feq_sym.
-  - destruct b, b0; reflexivity.
+  destruct v as [|x|x|x|x|k p|p c], w as [|y|y|y|y|k' p'|p' c']; cbn; auto using feq_sym.
+  - destruct x, y; reflexivity.
   - apply Z.eqb_sym.
-  - destruct (list_eqb s s0) eqn:E, (list_eqb s0 s) eqn:E'; auto.
-    + apply list_eqb_eq in E. subst. assert (list_eqb s0 s0 = true) by (apply list_eqb_eq; auto). congruence.
-    + apply list_eqb_eq in E'. subst. assert (list_eqb s s = true) by (apply list_eqb_eq; auto). congruence.
-  - rewrite (N.eqb_sym kind kind0), (N.eqb_sym ptr ptr0). reflexivity.
+  - destruct (list_eqb x y) eqn:E, (list_eqb y x) eqn:E'; auto.
+    + apply list_eqb_eq in E. subst. assert (list_eqb y y = true) by (apply list_eqb_eq; auto). congruence.
+    + apply list_eqb_eq in E'. subst. assert (list_eqb x x = true) by (apply list_eqb_eq; auto). congruence.
+  - rewrite (N.eqb_sym k k'), (N.eqb_sym p p'). reflexivity.
   - apply N.eqb_sym.
 Qed.
 
 Lemma raw_eq_trans : forall a b c, raw_eq a b = true -> raw_eq b c = true -> raw_eq a c = true.
 Proof.
-  destruct a, b, c; cbn; try discriminate; auto.
-  - destruct b, b0, b1; auto.
+  destruct a as [|x|x|x|x|k p|p cl], b as [|y|y|y|y|k' p'|p' cl'], c as [|z|z|z|z|k'' p''|p'' cl'']; cbn; try discriminate; auto.
+  - destruct x, y, z; auto.
   - intros H1 H2. apply Z.eqb_eq in H1, H2. apply Z.eqb_eq. congruence.
   - apply feq_trans.
   - intros H1 H2. apply list_eqb_eq in H1, H2. apply list_eqb_eq. congruence.
@@ -211,6 +210,7 @@ Proof.
   intros v w NF.
   destruct v as [|a|a|a|a|k p|p c], w as [|b|b|b|b|k' p'|p' c']; try reflexivity;
     try (unfold norm; cbn [toIntNoString]; destruct (float_to_int _); reflexivity).
-  - unfold norm. cbn [toIntNoString]. destruct (float_to_int b) eqn:E; cbn; [apply Z.eqb_sym|reflexivity].
+  - unfold norm, lua_eq. cbn [toIntNoString]. destruct (float_to_int b) eqn:E; cbn; [apply Z.eqb_sym|reflexivity].
+  - unfold norm, lua_eq. cbn [toIntNoString]. destruct (float_to_int a) eqn:E; cbn; reflexivity.
   - exfalso. eapply NF; reflexivity.
 Qed.
